@@ -11,13 +11,16 @@ RULE = ("case = (platform family in {iCE40/.pcf, ECP5-Trellis/.lpf, Gowin-Apicul
         "PinsN, DiffPairs, nested Subsignals, Attrs, Clocks, connectors and chains of connectors, deliberately overlapping "
         "pins; a history of <= 25 request operations including refusals placed after partial progress: duplicates, unknown "
         "resources, pin conflicts on a late pin of a late subsignal, illegal direction changes, bad xdr; then a build of a "
-        "design buffering a seeded subset of the granted ports). Non-trivial = at least one request granted, one refused "
+        "design buffering a seeded subset of the granted ports, optionally with clock constraints the design puts on internal "
+        "nets of named submodules / of the top module / on a signal it never uses). Non-trivial = at least one request granted, one refused "
         "and the plan built; distinct = distinct SHA-256 of (outcomes, constraint file).")
 ASSUMPTIONS = [
     "Pin-owner model (dict) is the reference for grant/refuse; 'history minus refused operations on a fresh platform' is "
     "the reference for atomicity (same outcomes, same constraint file, same RTLIL port list).",
     "Constraint files are read with small regex parsers for the three open-toolchain templates that render offline.",
-    "Clock frequencies are compared with relative tolerance 1e-6 (Period is integer femtoseconds).",
+    "Clock frequencies are compared with relative tolerance 1e-6 (Period is integer femtoseconds). A constrained internal net is "
+    "named by the path of submodule names below the top module joined with '.', followed by the signal's name; a constraint on a "
+    "signal the design never uses yields no line.",
     "Differential pairs: only the positive port is required in the constraint file (vendor templates bind the pair by its "
     "positive pin); a negative-port line, if present, must name the declared pin.",
 ]
@@ -26,7 +29,8 @@ COMPONENTS = {"real": ["amaranth.build.res.ResourceManager", "amaranth.build.dsl
                        "amaranth.lib.io.Buffer", "amaranth.back.rtlil"],
               "stub": ["pin-owner model", "constraint-file parsers", "no toolchain is executed (do_build=False)"]}
 EXPECTED_PROBES = ("refuse", "refuse_conflict_late", "refuse_duplicate", "refuse_unknown", "refuse_bad_dir", "refuse_bad_xdr",
-                   "refuse_bad_xdr_late", "granted", "connector_chain", "diffpairs", "clock_constraints", "built", "legal_after_refusal")
+                   "refuse_bad_xdr_late", "granted", "connector_chain", "diffpairs", "clock_constraints", "net_clock_constraints", "built",
+                   "legal_after_refusal")
 
 PHYS = ["P%d" % i for i in range(1, 41)]
 
@@ -131,7 +135,14 @@ def gen_case(seed, tier):
         ops.append(op)
     if config["default_clk"] and fl.random() < 0.7:
         ops = [op for op in ops if op["name"] != config["default_clk"]] or ops[:1]
-    return {"config": config, "steps": ops, "use_frac": wl.choice([1.0, 1.0, 0.6, 0.3]), "use_seed": wl.randrange(1 << 30)}
+    # clock constraints the design itself puts on internal nets (named by hierarchical path in the constraint file), on a net
+    # of the top module, and on a signal the design never uses (must be skipped silently)
+    net_clocks = []
+    if wl.random() < 0.4:
+        for sub in wl.sample(["diva", "divb", None, "unused"], wl.randint(1, 3)):
+            net_clocks.append({"sub": sub, "mhz": wl.choice([6, 12.5, 0.032768, 100, 33.333333])})
+    return {"config": config, "steps": ops, "use_frac": wl.choice([1.0, 1.0, 0.6, 0.3]), "use_seed": wl.randrange(1 << 30),
+            "net_clocks": net_clocks}
 
 
 # ---- building the real platform ---------------------------------------------------------------------------------
@@ -298,7 +309,7 @@ def parse_constraints(ext, text):
             m = re.fullmatch(r'LOCATE COMP "([^"]+)" SITE "([^"]+)";', line)
             if m:
                 locs.append((m.group(1), m.group(2)))
-            m = re.fullmatch(r'FREQUENCY PORT "([^"]+)" (\S+) HZ;', line)
+            m = re.fullmatch(r'FREQUENCY (?:PORT|NET) "([^"]+)" (\S+) HZ;', line)
             if m:
                 freqs.append((m.group(1), float(m.group(2))))
         else:
@@ -308,7 +319,7 @@ def parse_constraints(ext, text):
     return locs, freqs
 
 
-def run_history(config, ops, use_frac, use_seed, stats=None, record=None):
+def run_history(config, ops, use_frac, use_seed, stats=None, record=None, net_clocks=()):
     """Executes ops on a fresh platform; returns (outcomes, constraint text, rtlil ports, parsed)."""
     import random
     import warnings
@@ -452,6 +463,22 @@ def run_history(config, ops, use_frac, use_seed, stats=None, record=None):
     out = Signal(name="sink_out")
     if sink:
         m.d.comb += out.eq(Cat(*sink).xor())
+    for nc in net_clocks:
+        from amaranth.hdl import Period as _Period
+        slow = Signal(name="slow_clk")
+        if nc["sub"] == "unused":
+            pass
+        elif nc["sub"] is None:
+            m.d.comb += slow.eq(~out)
+            expect_clk["slow_clk"] = nc["mhz"] * 1e6
+        else:
+            subm = Module()
+            subm.d.comb += slow.eq(~out)
+            m.submodules[nc["sub"]] = subm
+            expect_clk[nc["sub"] + ".slow_clk"] = nc["mhz"] * 1e6
+        plat.add_clock_constraint(slow, _Period(MHz=nc["mhz"]))
+        if stats is not None:
+            stats["probes"]["net_clock_constraints"] = stats["probes"].get("net_clock_constraints", 0) + 1
     with warnings.catch_warnings():
         warnings.simplefilter("ignore")
         if build_should_fail is not None:
@@ -526,14 +553,14 @@ def run_case(case):
                         "legal_after_refusal": 0, "metamorphic_compared": 0}}
 
     def go():
-        outcomes, text, ports = run_history(config, case["steps"], case["use_frac"], case["use_seed"], stats)
+        outcomes, text, ports = run_history(config, case["steps"], case["use_frac"], case["use_seed"], stats, net_clocks=case.get("net_clocks", ()))
         dig.add((outcomes, text))
         build1 = outcomes[len(case["steps"]):]
         req1 = outcomes[:len(case["steps"])]
         if any(o != "ok" for o in req1):
             # metamorphic atomicity oracle: the same history with the refused operations deleted
             kept = [op for op, o in zip(case["steps"], req1) if o == "ok"]
-            o2, text2, ports2 = run_history(config, kept, case["use_frac"], case["use_seed"])
+            o2, text2, ports2 = run_history(config, kept, case["use_frac"], case["use_seed"], net_clocks=case.get("net_clocks", ()))
             stats["probes"]["metamorphic_compared"] += 1
             if any(o != "ok" for o in o2[:len(kept)]):
                 raise Violation("atomicity_outcomes", -1, {"outcomes_without_refused_ops": o2})
